@@ -527,6 +527,9 @@ func (c *CEnv) evalCall(e *CExpr) Val {
 	// predicate macro
 	if ps := g.P.Specs[pkgShort(c.pkg.Types)]; ps != nil {
 		if p, ok := ps.Preds[e.Name]; ok {
+			if g.axiomHeap == nil {
+				g.emitGhostAxioms(c.pkg, e.Name) // axioms stated about this predicate
+			}
 			return c.expandPred(p, e)
 		}
 	}
@@ -536,6 +539,9 @@ func (c *CEnv) evalCall(e *CExpr) Val {
 			if p, ok := ps.Preds[e.Name[i+1:]]; ok {
 				n := *c
 				n.pkg = g.P.Pkgs[e.Name[:i]]
+				if g.axiomHeap == nil {
+					g.emitGhostAxioms(n.pkg, e.Name[i+1:])
+				}
 				return n.expandPredArgs(p, e, c)
 			}
 		}
@@ -681,6 +687,22 @@ func (g *FuncGen) emitGhostAxioms(pk *packages.Package, name string) {
 		if g.declSeen[key] {
 			continue
 		}
+		// a hidden definition is available to the lemmas of its package and to the functions that reveal it
+		if ax.Opaque && g.lemmaPkg == "" {
+			revealed := false
+			if g.F.Spec != nil {
+				for _, r := range g.F.Spec.Reveals {
+					revealed = revealed || r == ax.Label || r == pkgShort(pk.Types)+"."+ax.Label
+				}
+			}
+			if !revealed {
+				continue
+			}
+		}
+		// while a lemma is being proved, it and everything stated after it in its package is not available
+		if g.lemmaPkg == pkgShort(pk.Types) && i >= g.lemmaIdx {
+			continue
+		}
 		g.declSeen[key] = true
 		g.emitAxiom(pk, ax)
 	}
@@ -688,6 +710,17 @@ func (g *FuncGen) emitGhostAxioms(pk *packages.Package, name string) {
 
 // emitAxiom: the axiom holds for every heap: heap arrays read inside become universally quantified.
 func (g *FuncGen) emitAxiom(pk *packages.Package, ax *Axiom) {
+	f := g.axiomFormula(pk, ax)
+	g.emit("(assert " + f + ")")
+	if ax.Lemma {
+		g.notes = append(g.notes, fmt.Sprintf("lemma %s.%s (proved: obligation %s.lemmas#lemma[%s])", pkgShort(pk.Types), ax.Label, pkgShort(pk.Types), ax.Label))
+	} else {
+		g.notesAxiom(pkgShort(pk.Types), ax)
+	}
+}
+
+// axiomFormula: the closed formula of an axiom or lemma (heap arrays read inside are universally quantified).
+func (g *FuncGen) axiomFormula(pk *packages.Package, ax *Axiom) string {
 	saveAx := g.axiomHeap
 	g.axiomHeap = map[string]string{}
 	defer func() { g.axiomHeap = saveAx }()
@@ -736,11 +769,9 @@ func (g *FuncGen) emitAxiom(pk *packages.Package, ax *Axiom) {
 	}
 	all := append(hb, binders...)
 	if len(all) == 0 {
-		g.emit("(assert " + body + ")")
-		return
+		return body
 	}
-	g.emit(fmt.Sprintf("(assert (forall (%s) %s))", strings.Join(all, " "), body))
-	g.notesAxiom(pkgShort(pk.Types), ax)
+	return fmt.Sprintf("(forall (%s) %s)", strings.Join(all, " "), body)
 }
 
 func (g *FuncGen) notesAxiom(pkg string, ax *Axiom) {
